@@ -8,7 +8,8 @@ def build(eid, count, inrole):
     from openfisca_core.simulations import SimulationBuilder
     person = entities.build_entity(key="person", plural="persons", label="", is_person=True)
     household = entities.build_entity(key="household", plural="households", label="",
-                                      roles=[{"key": "parent", "plural": "parents"}, {"key": "child", "plural": "children"},
+                                      roles=[{"key": "parent", "plural": "parents", "subroles": ["first_parent", "second_parent"]},
+                                             {"key": "child", "plural": "children"},
                                              {"key": "referent", "plural": "referents", "max": 1}])
     tbs = taxbenefitsystems.TaxBenefitSystem([person, household])
     sim = SimulationBuilder().build_default_simulation(tbs, count=len(eid))
@@ -19,7 +20,9 @@ def build(eid, count, inrole):
     hh._members_position = None
     hh._ordered_members_map = None
     ent = tbs.group_entities[0]
-    hh.members_role = [ent.PARENT if r else ent.CHILD for r in inrole]
+    # holders of the role "parent" hold one of its sub-roles, as the builder assigns them
+    subs = [ent.FIRST_PARENT, ent.SECOND_PARENT]
+    hh.members_role = [subs[k % 2] if r else ent.CHILD for k, r in enumerate(inrole)]
     return sim, hh, ent
 
 
